@@ -217,6 +217,8 @@ def check_C04(ctx, rep):
                                                    lambda r: r[0] == 'cdef' and r[1].endswith('STATE_END'), False))
             rep.ob('C04.R4', tr, 'no-%s-after-END' % callee_str(f).split('::')[-1], ok, '')
     # sample_state happens behind the END check as well (an ended machine does not even draw)
+    rep.rule('C04.R5', 'helper contracts: MachineId::into_raw/from_raw are identity wrappers and num_machines is machines.as_ref().len() (ids name existing machines)')
+    check_helpers_ids(ctx, rep, 'C04.R5')
     rep.assumptions += ['f64::round and the float-to-int cast are not evaluated numerically (casts saturate by language definition)',
                         'Duration::from_micros of the caller\'s duration type is monotone']
     return 'who-may-write inventory of the action slots, translation table of schedule_action, clamp shape of the samplers, END absorbing guard'
@@ -1128,3 +1130,126 @@ def check_C05(ctx, rep):
                         'std functions without MIR in the facts are judged by name against the effect-source table',
                         "the caller's R, T, M implementations are pure functions of their own state"]
     return 'ambient-effect closure of the framework entry points over the cross-crate call graph; derived clones; processing-order skeleton'
+
+
+# =================================================================== shared helper-contract rules
+
+def check_helpers_ids(ctx, rep, rid):
+    """MachineId accessors are identity wrappers; num_machines is machines.as_ref().len()"""
+    prog, an = ctx.prog, ctx.an
+    ir = prog.fn(FW, 'MachineId', 'into_raw')
+    fr = prog.fn(FW, 'MachineId', 'from_raw')
+    rv = [v for (b, k, v) in ret_defs(an.get(ir))]
+    ok = len(rv) == 1 and unload(rv[0])[0] == 'fld' and unload(rv[0])[3] == '0' and unload(rv[0])[1] in (('param', 1), ('local', 1))
+    rep.ob(rid, ir, 'into_raw-is-identity', ok, 'returns %s' % (shape(rv[0]) if rv else '?'))
+    rv = [v for (b, k, v) in ret_defs(an.get(fr))]
+    ok = len(rv) == 1 and rv[0][0] == 'agg' and rv[0][1].endswith('MachineId') and dict(rv[0][3]).get('0') == ('param', 1)
+    rep.ob(rid, fr, 'from_raw-is-identity', ok, 'returns %s' % (shape(rv[0]) if rv else '?'))
+    nm = prog.fn(FW, 'Framework', 'num_machines')
+    rv = [v for (b, k, v) in ret_defs(an.get(nm))]
+    ok = len(rv) == 1 and is_call(rv[0], '::len') and contains(rv[0], lambda x: isinstance(x, tuple) and x and x[0] == 'fld' and x[3] == 'machines')
+    rep.ob(rid, nm, 'num_machines-is-machines-len', ok, 'returns %s' % (shape(rv[0]) if rv else '?'))
+
+
+def check_initial_state(ctx, rep, rid):
+    """the initial Framework / MachineRuntime values built by Framework::new"""
+    prog, an = ctx.prog, ctx.an
+    nw = prog.fn(FW, 'Framework', 'new')
+    fa = an.get(nw)
+    names = {}
+    for v in nw.dbg:
+        if not v['p']['pr'] and 1 <= v['p']['l'] <= nw.argc:
+            names[v['name']] = v['p']['l']
+
+    def par(n):
+        i = names.get(n)
+        return lambda e: i is not None and (e == ('param', i) or unload(e) == ('local', i) or e == ('load', ('local', i)) or (isinstance(e, tuple) and e and e[0] == 'load' and e[1] == ('local', i)))
+    zero_dur = lambda e: is_call(e, 'Duration::zero')
+    table = {
+        'current_time': par('current_time'), 'framework_start': par('current_time'), 'blocking_started': par('current_time'),
+        'max_padding_frac': par('max_padding_frac'), 'max_blocking_frac': par('max_blocking_frac'),
+        'rng': par('rng'), 'machines': par('machines'),
+        'blocking_active': lambda e: is_const(e, 0), 'normal_sent_packets': lambda e: is_const(e, 0), 'padding_sent_packets': lambda e: is_const(e, 0),
+        'blocking_duration': zero_dur, 'signal_pending': lambda e: e[0] == 'agg' and e[2] == 'None',
+    }
+    aggs = aggregates(fa, 'framework::Framework')
+    rep.count_exact(rid, 'Framework aggregates in new', len(aggs), 1)
+    for (site, var, flds, ln) in aggs:
+        for f, pred in table.items():
+            if f not in flds:
+                rep.ob(rid, nw, 'init:' + f, False, 'field %s missing from the Framework aggregate' % f)
+                continue
+            rep.ob(rid, nw, 'init:' + f, bool(pred(flds[f])), '%s = %s' % (f, shape(flds[f])))
+    rt = {
+        'current_state': lambda e: is_const(e, 0), 'padding_sent': lambda e: is_const(e, 0), 'normal_sent': lambda e: is_const(e, 0),
+        'counter_a': lambda e: is_const(e, 0), 'counter_b': lambda e: is_const(e, 0), 'blocking_duration': zero_dur,
+        'machine_start': None,
+        'allowed_blocked_microsec': lambda e: is_call(e, 'Duration::from_micros') and is_field(e[2][0], 'allowed_blocked_microsec', 'Machine'),
+    }
+    found = []
+    for fn in [nw] + [g for g in prog.crate_fns(FW) if g.has_body and not g.derived and (g.impl_adt or '').endswith('MachineRuntime')]:
+        fa2 = an.get(fn)
+        for (site, var, flds, ln) in aggregates(fa2, 'framework::MachineRuntime'):
+            found.append((fn, flds))
+    rep.count_exact(rid, 'MachineRuntime constructions', len(found), 1)
+    for (fn, flds) in found:
+        for f, pred in rt.items():
+            if f not in flds:
+                rep.ob(rid, fn, 'runtime-init:' + f, False, 'missing')
+                continue
+            if f == 'machine_start':
+                e = flds[f]
+                if fn is nw:
+                    ok = par('current_time')(e)
+                else:
+                    # helper constructor: the value must be a parameter that Framework::new fills with current_time
+                    ok = e[0] == 'param'
+                    for (b, f2, a, t) in calls(fa):
+                        if callee_key(f2) == fn.key and e[0] == 'param':
+                            ok = ok and par('current_time')(a[e[1] - 1])
+                rep.ob(rid, fn, 'runtime-init:' + f, ok, '%s = %s' % (f, shape(e)))
+            else:
+                rep.ob(rid, fn, 'runtime-init:' + f, bool(pred(flds[f])), '%s = %s' % (f, shape(flds[f])))
+
+
+def check_time_impl(ctx, rep, rid):
+    prog, an = ctx.prog, ctx.an
+    z = prog.fn(FW, 'Duration', 'zero', 'Duration')
+    rv = [v for (b, k, v) in ret_defs(an.get(z))]
+    ok = len(rv) == 1 and ((rv[0][0] == 'cdef' and rv[0][1].endswith('::ZERO') and rv[0][1].startswith('core::time::')) or is_call(rv[0], 'Duration::from_micros') and is_const(rv[0][2][0], 0) or
+                           (rv[0][0] in ('ktext', 'const', 'agg') and 'ZERO' in str(rv[0])) or is_call(rv[0], 'Duration::new') and all(is_const(x, 0) for x in rv[0][2]))
+    rep.ob(rid, z, 'zero-is-zero', ok, 'returns %s' % (shape(rv[0]) if rv else '?'))
+    iz = prog.fn(FW, 'Duration', 'is_zero', 'Duration')
+    rv = [v for (b, k, v) in ret_defs(an.get(iz))]
+    ok = len(rv) == 1 and is_call(rv[0], 'Duration::is_zero') and contains(rv[0], lambda x: x == ('param', 1))
+    rep.ob(rid, iz, 'is_zero-delegates', ok, 'returns %s' % (shape(rv[0]) if rv else '?'))
+
+
+def check_sample_limit(ctx, rep, rid):
+    prog, an = ctx.prog, ctx.an
+    fn = prog.fn(FW, 'Action', 'sample_limit')
+    fa = an.get(fn)
+    pf = an.paths(fn, history=True)
+    avars = prog.adt('maybenot::action::Action')['variants']
+    mx = prog.const_val('maybenot::constants::STATE_LIMIT_MAX')
+    rep.ob(rid, 'constants', 'STATE_LIMIT_MAX-is-u64-max', int(mx) == 2 ** 64 - 1, 'STATE_LIMIT_MAX = %s' % mx)
+    n = 0
+    for (b, k, v) in ret_defs(fa):
+        v = expand_calls(ctx, v)
+        alts = v[1] if v[0] == 'phi' else (v,)
+        for a in alts:
+            n += 1
+            if a[0] == 'cdef' and a[1].endswith('STATE_LIMIT_MAX'):
+                continue
+            ok = a[0] == 'cast' and a[1] == 'FloatToInt' and is_call(a[3], '::round') and is_call(a[3][2][0], 'Dist::sample') and \
+                contains(a[3][2][0][2][0], lambda x: isinstance(x, tuple) and x and x[0] == 'fld' and x[3] == 'limit' and x[2].endswith('Action'))
+            rep.ob(rid, fn, 'limit-is-rounded-sample-of-limit-dist', ok, 'returns %s' % shape(a))
+    rep.count_floor(rid, 'return alternatives of sample_limit', n, 2)
+    # a variant with a limit field never returns the "no limit" constant while the limit is set
+    for (b, k, v) in ret_defs(fa):
+        if v[0] == 'cdef' and v[1].endswith('STATE_LIMIT_MAX'):
+            for S in pf.at(b, k):
+                var = [f[2] for f in S if f[0] == 'variant' and f[2] in [x['name'] for x in avars]]
+                if var and any(fl['name'] == 'limit' for fl in prog.variant('maybenot::action::Action', var[0])['fields']):
+                    none = any((f[0] == 'bcall' and f[1].endswith('is_none') and f[3] is True) or (f[0] == 'variant' and f[2] == 'None') for f in S)
+                    rep.ob(rid, fn, 'no-limit-constant-only-without-limit:' + var[0], none, '')
